@@ -243,7 +243,7 @@ theorem reshape_stack_eq_cat (x : Tensor) (td dm order w : Nat) (mode : PadMode)
     List.set_eq_take_append_cons_drop, if_pos hlt]
   simp
 
-/-! ## The whole of `featDeltasCore` -/
+/-! ## The whole of `featDeltasRows` / `featDeltasCore` -/
 
 theorem prod_stack (s : List Nat) (dm a : Nat) :
     prod (s.take dm ++ [a] ++ s.drop dm) = a * prod s := by
@@ -269,11 +269,11 @@ theorem assemble_eq (x : Tensor) (m td dm order w : Nat) (cat : Bool) (mode : Pa
     rw [assemble_cat, stack_tensor_eq x m td dm order w mode hD htd (by omega) outs hout]
     exact reshape_stack_eq_cat x td dm order w mode (by omega)
 
-theorem featDeltasCore_eq (x : Tensor) (m td dm order w : Nat) (cat : Bool) (mode : PadMode)
+theorem featDeltasRows_eq (x : Tensor) (m td dm order w : Nat) (cat : Bool) (mode : PadMode)
     (fs : List (List Rat)) (hD : x.shape.length = m + 1) (htd : td ≤ m)
     (hdm : dm ≤ (if cat then m else m + 1))
     (hrow : ∀ row outs, deltaRow mode order w fs row = some outs → outs = deltaRowSpec mode order w row) :
-    featDeltasCore x td dm cat order w mode fs =
+    featDeltasRows x td dm cat order w mode fs =
       if x.numel ≠ 0 ∧ !(padLegal mode (w * order) (x.shape.getD td 1)) then none
       else some (featDeltasIndexMap x td dm cat order w mode) := by
   have hxs := xt_shape x m td hD htd
@@ -285,7 +285,7 @@ theorem featDeltasCore_eq (x : Tensor) (m td dm order w : Nat) (cat : Bool) (mod
       = prod ((List.range m).map (fun j => x.shape.getD (swapF td m j) 1)) * x.shape.getD td 1 := by
     rw [transpose_eq_permute, permute_data_length, ← transpose_eq_permute, hxs, prod_append]
     simp [prod]
-  have hcore : featDeltasCore x td dm cat order w mode fs =
+  have hcore : featDeltasRows x td dm cat order w mode fs =
       ((rowsOf (x.shape.getD td 1) (x.transpose td m).data
           (if x.shape.getD td 1 = 0 then 0 else
             prod ((List.range m).map (fun j => x.shape.getD (swapF td m j) 1) ++ [x.shape.getD td 1]) /
@@ -293,7 +293,7 @@ theorem featDeltasCore_eq (x : Tensor) (m td dm order w : Nat) (cat : Bool) (mod
         (deltaRow mode order w fs)).map
         (assembleDeltas ((List.range m).map (fun j => x.shape.getD (swapF td m j) 1) ++ [x.shape.getD td 1])
           (m + 1) td dm cat order) := by
-    unfold featDeltasCore Tensor.numel
+    unfold featDeltasRows Tensor.numel
     simp only [hD, Nat.add_sub_cancel, hxs, List.getLast?_concat, Option.getD_some]
   rw [hcore]
   generalize hpre : (List.range m).map (fun j => x.shape.getD (swapF td m j) 1) = pre at *
@@ -361,5 +361,23 @@ theorem featDeltasCore_eq (x : Tensor) (m td dm order w : Nat) (cat : Bool) (mod
       intro _
       rw [hT, hpre]
       exact ⟨hTpos, rfl⟩
+
+/-- `featDeltasCore` = the shape-level checks of `pad` / `conv1d` (at least one frame, a padding the
+mode allows — also on a tensor without any entry), then the index map. -/
+theorem featDeltasCore_eq (x : Tensor) (m td dm order w : Nat) (cat : Bool) (mode : PadMode)
+    (fs : List (List Rat)) (hD : x.shape.length = m + 1) (htd : td ≤ m)
+    (hdm : dm ≤ (if cat then m else m + 1))
+    (hrow : ∀ row outs, deltaRow mode order w fs row = some outs → outs = deltaRowSpec mode order w row) :
+    featDeltasCore x td dm cat order w mode fs =
+      if x.shape.getD td 1 = 0 ∨ !(padLegal mode (w * order) (x.shape.getD td 1)) then none
+      else some (featDeltasIndexMap x td dm cat order w mode) := by
+  unfold featDeltasCore
+  simp only []
+  by_cases hbad : x.shape.getD td 1 = 0 ∨ (!(padLegal mode (w * order) (x.shape.getD td 1))) = true
+  · rw [if_pos hbad, if_pos hbad]
+  · rw [if_neg hbad, if_neg hbad, featDeltasRows_eq x m td dm order w cat mode fs hD htd hdm hrow]
+    have hleg : ¬ (x.numel ≠ 0 ∧ (!(padLegal mode (w * order) (x.shape.getD td 1))) = true) :=
+      fun h => hbad (Or.inr h.2)
+    rw [if_neg hleg]
 
 end PdtVerif.FeatStats
